@@ -23,7 +23,7 @@ var rec = vh.NewRecorder("C06", "upload-faults",
 		"TCP close inside the request head, close after n bytes, RST after n bytes, no fault} x n in {0,1,100,4000,4095,4096,4097,5000,end} x "+
 		"whether the failed connection keeps draining, against utils.NewResponseForwarder (in-process, -race) writing a response of size "+
 		"{0,1,100,3800-4200,4095,4096,4097,5000,64KiB} in generated segments with pauses; the byte-level TCP fault server records every "+
-		"attempt; non-trivial = the first attempt is faulted; distinct = SHA-256 of the canonical case")
+		"attempt, optionally with 1-3 healthy uploads of other requests running at the same time (every upload must carry the response of the request id it is posted under); non-trivial = the first attempt is faulted; distinct = SHA-256 of the canonical case")
 
 func TestMain(m *testing.M) { vh.Main(m, rec) }
 
@@ -39,6 +39,7 @@ type Case struct {
 	Segments []int   `json:"segments"` // write sizes; remainder in one write
 	PausesMs []int   `json:"pauses_ms"`
 	Script   []Fault `json:"script"`
+	Others   int     `json:"concurrent_other_uploads,omitempty"` // healthy uploads of other requests started while this one is being (re)tried
 }
 
 var (
@@ -71,6 +72,7 @@ func genCase(t *rapid.T) Case {
 		}
 		c.Script = append(c.Script, f)
 	}
+	c.Others = rapid.SampledFrom([]int{0, 0, 1, 2, 3}).Draw(t, "others")
 	return c
 }
 
@@ -83,6 +85,7 @@ type attempt struct {
 	conn    int
 	at, end time.Time
 	head    string
+	reqID   string
 }
 
 type faultServer struct {
@@ -90,6 +93,7 @@ type faultServer struct {
 	mu       sync.Mutex
 	script   []Fault
 	attempts []*attempt
+	others   []*attempt
 	conns    []net.Conn
 	wg       sync.WaitGroup
 }
@@ -206,8 +210,26 @@ func (s *faultServer) serveConn(c net.Conn) {
 		if err != nil || !strings.HasPrefix(first, "POST ") || !strings.Contains(first, "agent/response") {
 			return
 		}
+		// the head up to and including the request id header decides whose upload this is
+		head := first
+		reqID := ""
+		for reqID == "" {
+			line, err := br.ReadString('\n')
+			head += line
+			if err != nil || line == "\r\n" {
+				break
+			}
+			if i := strings.IndexByte(line, ':'); i > 0 && strings.EqualFold(line[:i], "X-Inverting-Proxy-Request-ID") {
+				reqID = strings.TrimSpace(line[i+1:])
+			}
+		}
+		if reqID != mainID {
+			s.serveOther(c, br, reqID, head)
+			return
+		}
 		a := s.next(c)
-		a.head = first
+		a.head = head
+		a.reqID = reqID
 		f := a.fault
 		if f.Kind == "close-in-head" {
 			io.CopyN(io.Discard, br, int64(f.N))
@@ -215,15 +237,12 @@ func (s *faultServer) serveConn(c net.Conn) {
 			return
 		}
 		// read the rest of the head
-		for {
+		for !strings.HasSuffix(a.head, "\r\n\r\n") {
 			line, err := br.ReadString('\n')
 			a.head += line
 			if err != nil {
 				a.rawErr = err
 				return
-			}
-			if line == "\r\n" {
-				break
 			}
 		}
 		reply := func(code int, closeAfter bool) {
@@ -282,6 +301,27 @@ func (s *faultServer) serveConn(c net.Conn) {
 			return
 		}
 	}
+}
+
+const mainID = "req-c06"
+
+// serveOther acknowledges an upload of one of the concurrent other requests and records it.
+func (s *faultServer) serveOther(c net.Conn, br *bufio.Reader, reqID, head string) {
+	for !strings.HasSuffix(head, "\r\n\r\n") {
+		line, err := br.ReadString('\n')
+		head += line
+		if err != nil {
+			return
+		}
+	}
+	a := &attempt{fault: Fault{Kind: "ok"}, reqID: reqID, head: head, at: time.Now()}
+	if readDecoded(br, -1, a, &s.mu) {
+		a.acked = true
+	}
+	s.mu.Lock()
+	s.others = append(s.others, a)
+	s.mu.Unlock()
+	fmt.Fprintf(c, "HTTP/1.1 200 X\r\nContent-Length: 0\r\nConnection: close\r\n\r\n")
 }
 
 func (s *faultServer) close() {
@@ -359,6 +399,26 @@ func runCase(t vh.TB, c *Case) vh.Outcome {
 		r.closeErr = fw.Close()
 		done <- r
 	}()
+	// other requests' responses are uploaded through the same package while this one is being (re)tried
+	var owg sync.WaitGroup
+	for k := 0; k < c.Others; k++ {
+		k := k
+		owg.Add(1)
+		go func() {
+			defer owg.Done()
+			time.Sleep(time.Duration(k) * 700 * time.Microsecond)
+			id := fmt.Sprintf("req-c06-other-%d", k)
+			eu, _ := http.NewRequest("GET", "http://c06.example/other", nil)
+			fw, err := utils.NewResponseForwarder(client, "http://"+srv.ln.Addr().String()+"/", "backend", id, eu, nil)
+			if err != nil {
+				return
+			}
+			fw.Header().Set("X-C06", id)
+			fw.WriteHeader(200)
+			fw.Write([]byte("body-of-" + id))
+			fw.Close()
+		}()
+	}
 	var r res
 	select {
 	case r = <-done:
@@ -377,9 +437,44 @@ func runCase(t vh.TB, c *Case) vh.Outcome {
 	case <-waitc:
 	case <-time.After(3 * time.Second):
 	}
+	ow := make(chan struct{})
+	go func() { owg.Wait(); close(ow) }()
+	select {
+	case <-ow:
+	case <-time.After(20 * time.Second):
+		o.Err = fmt.Errorf("a concurrent healthy upload of another request did not finish within 20s")
+		return o
+	}
 	srv.mu.Lock()
 	attempts := append([]*attempt(nil), srv.attempts...)
+	others := append([]*attempt(nil), srv.others...)
 	srv.mu.Unlock()
+	if c.Others > 0 {
+		o.Classes = append(o.Classes, "concurrent-other-uploads")
+	}
+	// every upload must carry the response of the request it is posted under
+	seenOther := map[string]int{}
+	for _, a := range others {
+		seenOther[a.reqID]++
+		want := "body-of-" + a.reqID
+		var gotBody []byte
+		gotHdr := ""
+		if resp, err := http.ReadResponse(bufio.NewReader(bytes.NewReader(a.raw)), &http.Request{Method: "GET"}); err == nil {
+			gotBody, _ = io.ReadAll(resp.Body)
+			gotHdr = resp.Header.Get("X-C06")
+		}
+		if !a.acked || string(gotBody) != want || gotHdr != a.reqID {
+			o.Err = fmt.Errorf("an upload posted under request id %q does not carry that request's response: it carries header X-C06=%q and body %q", a.reqID, gotHdr, head(gotBody))
+			return o
+		}
+	}
+	for k := 0; k < c.Others; k++ {
+		id := fmt.Sprintf("req-c06-other-%d", k)
+		if seenOther[id] != 1 {
+			o.Err = fmt.Errorf("the response of the concurrent request %q was uploaded %d times under its own id (uploads seen: %v)", id, seenOther[id], seenOther)
+			return o
+		}
+	}
 	if len(attempts) > 3 {
 		o.Err = fmt.Errorf("the forwarder made %d upload attempts (at most 3 allowed) (%s)", len(attempts), describe(srv, attempts))
 		return o
